@@ -367,8 +367,8 @@ def run_lines(ck, cmd, lines, timeout):
 
 def run(ck):
     rng = random.Random(ck.seed)
-    maxn = 5 if ck.quick else 8
-    jobs = [("c08_%s" % s, ["C08/harness.cxx"], ("-DC08_SOLVER=%d" % k, "-DC08_MAXN=%d" % maxn, "-w"))
+    maxn = 4 if ck.quick else 8
+    jobs = [("c08_%s" % s, ["C08/harness.cxx", vlib.REPO + "/src/Exception/ContractViolation.cxx"], ("-DC08_SOLVER=%d" % k, "-DC08_MAXN=%d" % maxn, "-w"))
             for k, s in enumerate(SOLVERS)]
     bins = ck.cxx_many(jobs, sanitize=True)
     driver = ck.lean_exe("c08driver", "TfelVerif/C08/Driver.lean")
